@@ -63,6 +63,12 @@ def configs(ctx):
     for _ in range(40 if ctx.tier == "quick" else 600):
         sp = ctx.rng.sample(POOL, 8)
         out.append(dict(zip(IDS, sp)))
+    # the two operator spellings exchanged, and each default operator spelling given to the other role
+    base = dict(zip(IDS, ["$", "@", "#", "_", "~", "^", "|", "&"]))
+    for u, i in (("&", "|"), ("^^", "|"), ("&", "%"), ("|", "&"), ("%", "|"), ("<|>", "|"), ("&", "<&>")):
+        cfg = dict(base)
+        cfg["union"], cfg["inter"] = u, i
+        out.append(cfg)
     # role swaps: the same set of spellings assigned the other way round, in the same process right after the
     # original (two environments whose rule *patterns* coincide while the roles differ)
     swapped = []
@@ -83,6 +89,8 @@ def gen(ctx):
     docs = qpool.DOCS[:6]
     for cfg in cfgs:
         qs = QUERIES if ctx.tier != "quick" else ctx.rng.sample(QUERIES, 6)
+        if (cfg["union"], cfg["inter"]) != ("|", "&"):
+            qs = list(qs) + [q for q in QUERIES if (" | " in q or " & " in q) and q not in qs]
         for q in qs:
             cases.append({"cfg": cfg, "text": q, "doc": ctx.rng.choice(docs), "ctx": ctx.rng.choice(qpool.CONTEXTS)})
     return cases
